@@ -263,6 +263,17 @@ func runTerms(c TermsCase) (vkit.Info, error) {
 				}
 				reject = "no rule for the keys below the first start key"
 			}
+			if reject == "" {
+				for id, g := range u.patch.groups {
+					if alteredByPathCleaning(id) && g != m.group(id) {
+						reject = fmt.Sprintf("the record of group %q would not be stored under rule_group/%s", id, id)
+					}
+				}
+				if reject != "" && vkit.Known(kGroupPath) {
+					info.Exclude(kGroupPath)
+					continue
+				}
+			}
 			if reject != "" && m.reindexesServedRules(u.patch) && vkit.Known(kAdjust) {
 				info.Exclude(kAdjust)
 				continue
